@@ -22,7 +22,7 @@ def one(name, prop, seeds, jobs):
     hits = []
     try:
         shutil.copytree("/repo/src", os.path.join(tmp, "src"))
-        r = subprocess.run(["patch", "-p1", "-s", "-i", os.path.join(d, "patch.diff")], cwd=tmp, capture_output=True, text=True)
+        r = subprocess.run(["patch", "-p1", "-s", "-F0", "-i", os.path.join(d, "patch.diff")], cwd=tmp, capture_output=True, text=True)
         if r.returncode != 0:
             return name, prop, None, "patch does not apply"
         for s in seeds:
